@@ -51,7 +51,8 @@ FUNCTIONS = {
             ('select_c03', 'filter.Filter.global_setup')],
     'C11': [('shuffle_c11', 'shuffle.Shuffle.__init__'), ('shuffle_c11', 'shuffle.Shuffle.global_setup')],
     'C15': [('find_c15', 'find.remove_stale_bytecode'), ('find_c15', 'options.get_options')],
-    'C20': [('digraph_c20', 'digraph.DiGraph.sccs'), ('digraph_c20', 'digraph.DiGraph.sccs@partition')],
+    'C20': [('digraph_c20', 'digraph.DiGraph.sccs'), ('digraph_c20', 'digraph.DiGraph.sccs@partition'),
+            ('digraph_c20', 'digraph.DiGraph.neighbors')],
     'C03': [('find_c09', 'find.tests_from_suite'), ('select_c03', 'find.find_tests'),
             ('select_c03', 'filter.Filter.global_setup'), ('select_c03', 'listing.Listing.global_setup'),
             ('select_c03', 'listing.Listing.report'), ('runner_order', 'runner.order_by_bases'),
